@@ -3,6 +3,8 @@ package props
 import (
 	"fmt"
 	"github.com/go-kid/ioc/component_definition"
+	"github.com/go-kid/ioc/container/factory"
+	"github.com/go-kid/ioc/container/processors"
 	"github.com/go-kid/ioc/container/support"
 	"github.com/go-kid/ioc/syslog"
 	"math/rand"
@@ -27,7 +29,7 @@ func init() { core.Register(c20{}) }
 func (c20) ID() string    { return "C20" }
 func (c20) Level() string { return "exploration" }
 func (c20) Rule() string {
-	return "(a) race detector: a -race build of the harness runs real starts and shutdowns: seeded graphs with a harness scanner that fails for >= 2 components whose failing goroutines are gated to overlap (plus non-failing, yielding scanner calls), scanners and closers that log, closers failing concurrently behind gates, with the quiet logger and with the repository's own logger; every 'WARNING: DATA RACE' block in the GORACE log is parsed, reports are de-duplicated by the pair of top-most go-kid/ioc frames; any report with a go-kid/ioc frame is a violation (a report without one is a harness bug and makes the run inconclusive). (b) linearizability: concurrent histories of sync2.Map {Load, Store, LoadOrStore, LoadOrStoreFn (the supplied function yields), Delete, Range} and of list.NewConcurrentSets / list.NewGenericConcurrentSets {Put, Exists, Remove, ToArray} from 2..8 goroutines x 4..10 operations over 1..3 keys with unique written values, recorded at the client boundary with one shared atomic counter as clock (call before invoking, return after the reply) and checked by porcupine v1.3.0 against a per-key sequential model (partitioned by key; Range / ToArray contribute one read per key of the universe over the enclosing interval, which is all sync.Map promises); additionally the direct invariant that among concurrent LoadOrStore / LoadOrStoreFn callers on a fresh key exactly one is told loaded=false. non-trivial = history with >= 2 operations on one key that overlap in time; distinct = history signature (ops + interleaving of call/return stamps); race build additionally: scanner invocations for healthy components held in flight while others fail (App.Run must not return before they have), and sync2.Map with three-word values (every value read was stored by somebody); race build also: concurrent GetMetaOrRegister on the real definition registry; histories whose operations never return are reported (stall detection in scheduler yields and seconds); race build: every second shutdown without gates (gates add happens-before edges that can hide races); registryRace (concurrent get-or-register of shared fresh names: one definition per name, complete when handed out) in both builds"
+	return "(a) race detector: a -race build of the harness runs real starts and shutdowns: seeded graphs with a harness scanner that fails for >= 2 components whose failing goroutines are gated to overlap (plus non-failing, yielding scanner calls), scanners and closers that log, closers failing concurrently behind gates, with the quiet logger and with the repository's own logger; every 'WARNING: DATA RACE' block in the GORACE log is parsed, reports are de-duplicated by the pair of top-most go-kid/ioc frames; any report with a go-kid/ioc frame is a violation (a report without one is a harness bug and makes the run inconclusive). (b) linearizability: concurrent histories of sync2.Map {Load, Store, LoadOrStore, LoadOrStoreFn (the supplied function yields), Delete, Range} and of list.NewConcurrentSets / list.NewGenericConcurrentSets {Put, Exists, Remove, ToArray} from 2..8 goroutines x 4..10 operations over 1..3 keys with unique written values, recorded at the client boundary with one shared atomic counter as clock (call before invoking, return after the reply) and checked by porcupine v1.3.0 against a per-key sequential model (partitioned by key; Range / ToArray contribute one read per key of the universe over the enclosing interval, which is all sync.Map promises); additionally the direct invariant that among concurrent LoadOrStore / LoadOrStoreFn callers on a fresh key exactly one is told loaded=false. non-trivial = history with >= 2 operations on one key that overlap in time; distinct = history signature (ops + interleaving of call/return stamps); race build additionally: scanner invocations for healthy components held in flight while others fail (App.Run must not return before they have), and sync2.Map with three-word values (every value read was stored by somebody); race build also: concurrent GetMetaOrRegister on the real definition registry; histories whose operations never return are reported (stall detection in scheduler yields and seconds); race build: every second shutdown without gates (gates add happens-before edges that can hide races); registryRace (concurrent get-or-register of shared fresh names: one definition per name, complete when handed out) in both builds; bareFactory (factory.Default + SetRegistry + PrepareComponents without an application: every scanned component has its definition) in both builds"
 }
 func (c20) Assumptions() []string {
 	return []string{
@@ -202,7 +204,50 @@ func (p c20) registryRace(c *core.Ctx) {
 	c.Nontrivial(fmt.Sprintf("regrace:%d:%d:%d", nG, nNames, c.Index))
 }
 
+// bareFactory: a factory used without an application around it (factory.Default + SetRegistry +
+// PrepareComponents, one tag scanner): its parallel definition scan is the first thing that touches the
+// factory's definition registry. Every registered component has its definition afterwards.
+func (p c20) bareFactory(c *core.Ctx) {
+	reg := support.NewRegistry()
+	reg.RegisterSingleton(&processors.DefaultTagScanDefinitionRegistryPostProcessor{NodeType: component_definition.PropertyTypeComponent, Tag: "wire"})
+	n := 8 + c.Rng.Intn(60)
+	for i := 0; i < n; i++ {
+		nd := world.Palette[c.Rng.Intn(8)].New()
+		nd.Core().Name = fmt.Sprintf("bare-%d", i)
+		reg.RegisterSingleton(nd)
+	}
+	f := factory.Default()
+	f.SetRegistry(reg)
+	var err error
+	var pan any
+	func() {
+		defer func() { pan = recover() }()
+		err = f.PrepareComponents()
+	}()
+	c.Count("bare_factory_preparations", 1)
+	if pan != nil || err != nil {
+		c.Fail("", fmt.Sprintf("bare factory over %d components: PrepareComponents: panic=%v err=%v", n, pan, err), nil)
+		return
+	}
+	want := reg.GetSingletonCount()
+	if got := len(f.GetDefinitionRegistry().GetMetas()); got != want {
+		c.Fail("", fmt.Sprintf("bare factory: %d components were scanned in parallel, the definition registry holds %d definitions", want, got), map[string]any{"components": n})
+		return
+	}
+	for i := 0; i < n; i++ {
+		if f.GetDefinitionRegistry().GetMetaByName(fmt.Sprintf("bare-%d", i)) == nil {
+			c.Fail("", fmt.Sprintf("bare factory: component bare-%d has no definition after the parallel scan", i), map[string]any{"components": n})
+			return
+		}
+	}
+	c.Nontrivial(fmt.Sprintf("barefactory:%d:%d", n, c.Index))
+}
+
 func (p c20) RunRace(c *core.Ctx) {
+	if c.Index%16 == 9 {
+		p.bareFactory(c)
+		return
+	}
 	if c.Index%4 == 3 {
 		if c.Index%8 == 7 {
 			p.registryRace(c)
@@ -438,6 +483,10 @@ type recOp struct {
 func (p c20) Run(c *core.Ctx) {
 	if c.Index%40 == 17 {
 		p.registryRace(c) // (also part of the race-build workload)
+		return
+	}
+	if c.Index%40 == 33 {
+		p.bareFactory(c) // (also part of the race-build workload)
 		return
 	}
 	target := c.Index % 3 // 0 sync2.Map, 1 ConcurrentSets (string), 2 generic concurrent set
